@@ -440,7 +440,7 @@ func init() {
 	}
 
 	checks["C11"] = func(rep *Report, tier string, seed int64) {
-		rep.Rule = "binary: the full grid opcode 0..255 x key length {0,1,5} x extras {0,4,8; for value-carrying opcodes also 9,16,255} x total body {0,1,12,13,14,2^32-1} with 0..20 bytes following; mutations of valid requests (bit flips, truncation at every offset, length-field edits); random byte strings; text: lines with bad numeric fields, missing fields, long tokens, unicode white space; every input is given to the REAL parser (EOF-terminated, single goroutine) and to the model; compared: outcome class, decoded request, bytes consumed; oracle on the real parser: no panic, returns within 2 s, bytes allocated (runtime.MemStats.TotalAlloc delta) <= 64 KiB + 4 x input length + 2 x the model's allocation measure (the sizes the frame consistently declares); every 97th input and every input on which parser and model disagree is also sent to a REAL server connection (L1-only stack) followed by the client's half-close: the server must answer and/or close within 2 s, never hang; distinct = distinct (outcome class, opcode or text command)"
+		rep.Rule = "binary: the full grid opcode 0..255 x key length {0,1,5} x extras {0,4,8; for value-carrying opcodes also 9,16,255} x total body {0,1,12,13,14,2^32-1} with 0..20 bytes following; mutations of valid requests (bit flips, truncation at every offset, length-field edits); random byte strings; text: lines with bad numeric fields, missing fields, long tokens, unicode white space; every input is given to the REAL parser (EOF-terminated, single goroutine) and to the model; compared: outcome class, decoded request, bytes consumed; oracle on the real parser: no panic, returns within 2 s, bytes allocated (runtime.MemStats.TotalAlloc delta) <= 64 KiB + 4 x input length + 2 x the model's allocation measure (the sizes the frame consistently declares); every 97th input and every input on which parser and model disagree is also sent to a REAL server connection (L1-only stack) followed by the client's half-close: the server must answer and/or close within 2 s, never hang; containment: rounds of 8 and 24 well-behaved connections on private keys (40 commands each, judged as if alone by the single-map specification) while four connections keep sending malformed input (bad magic after a valid request, truncated frames, response magic, bad text numbers, a cut data block) and reconnect; distinct = distinct (outcome class, opcode or text command)"
 		d := StartDriver()
 		defer d.Close()
 		r := rand.New(rand.NewSource(seed))
@@ -629,6 +629,13 @@ func init() {
 		}
 		if len(rep.Samples) == 0 {
 			rep.Samples = append(rep.Samples, map[string]interface{}{"grid_example": "op=1 key=5 ext=8 total=0 (contradictory)", "text_lines": lines[:6]})
+		}
+		// containment: well-behaved connections on private keys, each judged as if it were alone,
+		// while four other connections keep sending malformed input, are cut off and come back
+		contained := map[string]bool{}
+		for ri, n := range []int{8, 24} {
+			privateRound(rep, d, contained, StackCfg{Orca: "l1only", Locked: "none", Bits: 0, L1: "std"}, 90, ri, n, 40, seed, tier, attackers)
+			rep.Distribution["containment-rounds"]++
 		}
 		rep.Distinct = len(distinct)
 	}
